@@ -13,8 +13,8 @@ TIMEOUT_S = 1500
 RULE = ('scenarios S1 layout handler + transposes, S2 layout swapper + transposes, S3 setupCylindricalGrid (+plot-only rank) + setLayout + '
         'getMin/getMax/getBlockFromDict classes, S4 DiagnosticCollector collect+reduce, S5 setupSave/writeH5Dataset/loadFromFile/setupFromFile, '
         'S6 fullSimulation.main() with every single clock jump (rank r runs out of time at its k-th clock reading); each on several process '
-        'grids, blocking modes S (all collectives synchronise) and N (rooted collectives return early); schedules enumerated exhaustively for '
-        '2-rank worlds and with a deviation bound otherwise; invariants per execution: matching signatures (op, root, count, datatype), no '
+        'grids, blocking modes S (all collectives synchronise) and N (rooted collectives return early); schedules of the tiny worlds T1/T2 on 2 ranks (and of S1 on 2 ranks in the thorough tier) enumerated without a bound, all other '
+        'scenarios with a deviation bound (2-rank worlds 2, thorough 3-4; larger worlds 1-2; tiny 3-rank worlds 3-4); invariants per execution: matching signatures (op, root, count, datatype), no '
         'deadlock, all ranks terminate, per-rank collective traces and outcomes identical across all schedules; route seam: every connection '
         'graph on <= 4 layouts x every insertion order x every tie-break answer of min() over the unvisited set, plus the connection graphs '
         'of real layout sets (6-cycle of all 3-D orderings included) with bounded non-default answers: route map and connected verdict must '
@@ -30,7 +30,7 @@ def cases(tier, seed):
     for mode in ('S', 'N'):
         for grid in ([1, 2], [2, 1]):
             for sc in ('S1', 'S2', 'S3', 'S4', 'S5', 'S7'):
-                b2 = None if sc in ('S1', 'S2') and tier == 'thorough' else (3 if tier == 'thorough' else 2)
+                b2 = None if sc == 'S1' and tier == 'thorough' else (4 if sc == 'S2' and tier == 'thorough' else (3 if tier == 'thorough' else 2))          # S2 with its two grids has up to 25 choice points: unbounded would exceed the execution cap
                 if sc in ('S3', 'S7'):
                     b2 = 1 if tier == 'quick' else 2          # long scenarios (> 100 collectives)
                 out.append({'kind': 'sched', 'scenario': sc, 'grid': grid, 'mode': mode, 'bound': b2, 'cost': 300})
